@@ -484,8 +484,10 @@ func (q *SendType) inferModality(labelledTypesEnv LabelledTypesEnv, usedLabels m
 		return q.Mode
 	}
 
-	leftUsedLabel := copyMap(usedLabels)
-	leftMode := q.Left.inferModality(labelledTypesEnv, leftUsedLabel)
+	// The labels that were already followed are shared between the two operands: following the
+	// same label again from the other operand cannot find anything new, and without sharing the work
+	// is exponential in the depth of the definitions (e.g. type A0 = A1 * A1, type A1 = A2 * A2, ...)
+	leftMode := q.Left.inferModality(labelledTypesEnv, usedLabels)
 	rightMode := q.Right.inferModality(labelledTypesEnv, usedLabels)
 
 	commonMode := commonMode(leftMode, rightMode)
@@ -506,8 +508,10 @@ func (q *ReceiveType) inferModality(labelledTypesEnv LabelledTypesEnv, usedLabel
 		return q.Mode
 	}
 
-	leftUsedLabel := copyMap(usedLabels)
-	leftMode := q.Left.inferModality(labelledTypesEnv, leftUsedLabel)
+	// The labels that were already followed are shared between the two operands: following the
+	// same label again from the other operand cannot find anything new, and without sharing the work
+	// is exponential in the depth of the definitions (e.g. type A0 = A1 * A1, type A1 = A2 * A2, ...)
+	leftMode := q.Left.inferModality(labelledTypesEnv, usedLabels)
 	rightMode := q.Right.inferModality(labelledTypesEnv, usedLabels)
 
 	commonMode := commonMode(leftMode, rightMode)
@@ -524,8 +528,8 @@ func (q *SelectLabelType) inferModality(labelledTypesEnv LabelledTypesEnv, usedL
 
 	var commonModes []Modality
 	for _, branch := range q.Branches {
-		usedLabelsCopy := copyMap(usedLabels)
-		branchMode := branch.SessionType.inferModality(labelledTypesEnv, usedLabelsCopy)
+		// (the followed labels are shared between the branches, as for the operands of * and -*)
+		branchMode := branch.SessionType.inferModality(labelledTypesEnv, usedLabels)
 		commonModes = append(commonModes, branchMode)
 	}
 
@@ -543,8 +547,8 @@ func (q *BranchCaseType) inferModality(labelledTypesEnv LabelledTypesEnv, usedLa
 
 	var commonModes []Modality
 	for _, branch := range q.Branches {
-		usedLabelsCopy := copyMap(usedLabels)
-		branchMode := branch.SessionType.inferModality(labelledTypesEnv, usedLabelsCopy)
+		// (the followed labels are shared between the branches, as for the operands of * and -*)
+		branchMode := branch.SessionType.inferModality(labelledTypesEnv, usedLabels)
 		commonModes = append(commonModes, branchMode)
 	}
 
